@@ -1,6 +1,8 @@
 package main
 
 import (
+	"fmt"
+	"math/big"
 	"bytes"
 	"errors"
 	"io"
@@ -159,7 +161,79 @@ func init() {
 	})
 	register("baryc", func(t []string) string {
 		z := frOfHex(t[1])
-		return joinFrs(config().PrecomputedWeights.ComputeBarycentricCoefficients(z))
+		first := config().PrecomputedWeights.ComputeBarycentricCoefficients(z)
+		res := joinFrs(first)
+		// the returned vector belongs to the caller: overwrite it, ask again for the same point
+		for i := range first {
+			first[i].SetUint64(uint64(7 + i))
+		}
+		again := joinFrs(config().PrecomputedWeights.ComputeBarycentricCoefficients(z))
+		if again != res {
+			res += " RESULT-ALIASED"
+		}
+		return res
+	})
+	// frbig <hex>: SetBigInt with an arbitrary (possibly non-canonical) integer; the argument must stay intact
+	register("frbig", func(t []string) string {
+		v := bigOfHex(t[1])
+		if len(t) > 2 && t[2] == "neg" {
+			v.Neg(v)
+		}
+		v0 := new(big.Int).Set(v)
+		var e fr.Element
+		e.SetBigInt(v)
+		r := frHex(&e)
+		if v.Cmp(v0) != 0 {
+			r += " MUTATED-INPUT"
+		}
+		return r
+	})
+	// ipawr2 <proof1> <proof2>: two IPA proofs whose L and R slices live next to each other in one array
+	// (the first with spare capacity reaching into the second); both written, first first
+	register("ipawr2", func(t []string) string {
+		var p1, p2 ipa.IPAProof
+		if err := p1.Read(bytes.NewReader(unhex(t[1]))); err != nil {
+			return "BADPROOF"
+		}
+		if err := p2.Read(bytes.NewReader(unhex(t[2]))); err != nil {
+			return "BADPROOF"
+		}
+		flat := make([]banderwagon.Element, 0, 64)
+		flat = append(flat, p1.L...)
+		flat = append(flat, p2.L...)
+		flat = append(flat, p1.R...)
+		flat = append(flat, p2.R...)
+		n1, n2 := len(p1.L), len(p2.L)
+		p1.L = flat[0:n1]
+		p2.L = flat[n1 : n1+n2]
+		p1.R = flat[n1+n2 : n1+n2+len(p1.R)]
+		p2.R = flat[n1+n2+len(p1.R) : n1+n2+len(p1.R)+len(p2.R)]
+		var b1, b2 bytes.Buffer
+		if err := p1.Write(&b1); err != nil {
+			return "WRITE-ERR"
+		}
+		if err := p2.Write(&b2); err != nil {
+			return "WRITE-ERR"
+		}
+		return "OK " + hexs(b1.Bytes()) + " " + hexs(b2.Bytes())
+	})
+	// grp <n> <m>: GenerateRandomPoints(n), the caller then uses the returned slice as its own (overwrites
+	// entries, appends), GenerateRandomPoints(m) must still be the specified points
+	register("grp", func(t []string) string {
+		n, m := atoi(t[1]), atoi(t[2])
+		a := ipa.GenerateRandomPoints(uint64(n))
+		for i := range a {
+			a[i].SetIdentity()
+		}
+		a = append(a, banderwagon.Generator, banderwagon.Generator)
+		_ = a
+		b := ipa.GenerateRandomPoints(uint64(m))
+		var sb strings.Builder
+		for i := range b {
+			x := b[i].Bytes()
+			sb.WriteString(hexs(x[:4]))
+		}
+		return fmt.Sprintf("%d %s", len(b), sb.String())
 	})
 	register("weights", func(t []string) string {
 		a, b := config().PrecomputedWeights.VerifWeights()
